@@ -146,7 +146,7 @@ inline std::vector<std::vector<int>> subsets_for(const QMat& A, int max_count, q
   { std::vector<int> all; for (int i = 1; i <= n; i++) all.push_back(i); add(all); }
   { std::vector<int> first; for (int i = 1; i <= std::min(n, d); i++) first.push_back(i); add(first); }
   { std::vector<int> last; for (int i = n; i > n - std::min(n, d + 1); i--) last.push_back(i); add(last); }
-  for (int t = 0; t < 40 && (int)out.size() < max_count; t++) {
+  for (int t = 0; t < 400 && (int)out.size() < max_count; t++) {
     int k = rng.range(d, std::min(n, d + 2)); std::vector<int> s; for (int i = 0; i < k; i++) s.push_back(rng.range(1, n)); add(s);
   }
   if ((int)out.size() > max_count) out.resize(max_count);
